@@ -166,9 +166,13 @@ class RefBlockDlServer:
 
 
 class RefBlockUlServer:
-    def __init__(self, value, crc_en=True):
+    """size_ind: the server announces the size of the value in its initiate response (s bit).  CiA 301 leaves that
+    to the server; with s=0 the size field is reserved (0)."""
+
+    def __init__(self, value, crc_en=True, size_ind=True):
         self.value = bytes(value)
         self.crc_en = crc_en
+        self.size_ind = size_ind
         self.state = "idle"
         self.bad = 0
         self.aborted = False
@@ -216,7 +220,8 @@ class RefBlockUlServer:
             if not 1 <= self.blksize <= 127:
                 self._bad(BAD_BLKSIZE)
             self.state, self.start, self.sent, self.acks_exact, self.ended = "started", 0, 0, True, False
-            return [bytes([0xC2 | (4 if self.crc_en else 0)]) + d[1:4] + struct.pack("<L", len(self.value))]
+            return [bytes([0xC0 | (2 if self.size_ind else 0) | (4 if self.crc_en else 0)]) + d[1:4] +
+                    struct.pack("<L", len(self.value) if self.size_ind else 0)]
         if sub == 3 and self.state == "started":
             return self._send_block(self.blksize, 0)
         if sub == 2 and self.state == "data":
